@@ -602,6 +602,9 @@ type Solver struct {
 	LastErr  string
 	NSat, NUnsat, NUnknown int
 	Name     string
+	Incremental bool
+	stack    []*Term
+	transient bool
 	log      io.Writer
 	level    int
 	scopedT  []int
@@ -618,6 +621,7 @@ func NewSolver(bin string, args ...string) *Solver {
 	}
 	s := &Solver{cmd: cmd, in: in, out: bufio.NewReader(outp), defined: map[int]bool{}, declared: map[string]bool{}}
 	s.send("(set-option :print-success false)")
+	s.send("(set-option :global-declarations true)")
 	return s
 }
 
@@ -696,6 +700,43 @@ func (s *Solver) ref(t *Term) string {
 // Check returns "sat","unsat","unknown" for the conjunction.
 func (s *Solver) Check(conj []*Term) string {
 	s.Queries++
+	if s.Incremental {
+		var cl []*Term
+		for _, c := range conj {
+			if c.IsTrue() {
+				continue
+			}
+			if c.IsFalse() {
+				s.NUnsat++
+				return "unsat"
+			}
+			cl = append(cl, c)
+		}
+		if len(cl) == 0 {
+			s.NSat++
+			return "sat"
+		}
+		persist, last := cl[:len(cl)-1], cl[len(cl)-1]
+		k := 0
+		for k < len(s.stack) && k < len(persist) && s.stack[k] == persist[k] {
+			k++
+		}
+		if k < len(s.stack) {
+			s.send(fmt.Sprintf("(pop %d)", len(s.stack)-k))
+			s.stack = s.stack[:k]
+		}
+		for _, t := range persist[k:] {
+			r := s.ref(t)
+			s.send("(push 1)")
+			s.send("(assert " + r + ")")
+			s.stack = append(s.stack, t)
+		}
+		r := s.ref(last)
+		s.send("(push 1)")
+		s.send("(assert " + r + ")")
+		s.transient = true
+		return s.finishCheck()
+	}
 	var refs []string
 	for _, c := range conj {
 		if c.IsTrue() {
@@ -714,6 +755,10 @@ func (s *Solver) Check(conj []*Term) string {
 	for _, r := range refs {
 		s.send("(assert " + r + ")")
 	}
+	return s.finishCheck()
+}
+
+func (s *Solver) finishCheck() string {
 	t0 := time.Now()
 	s.send("(check-sat)")
 	res := s.readLine()
@@ -760,15 +805,15 @@ func (s *Solver) Value(t *Term) string {
 	return s.readLine()
 }
 func (s *Solver) Pop() {
+	if s.Incremental {
+		if s.transient {
+			s.send("(pop 1)")
+			s.transient = false
+		}
+		return
+	}
 	s.send("(pop 1)")
 	s.level--
-	for _, id := range s.scopedT {
-		delete(s.defined, id)
-	}
-	for _, d := range s.scopedD {
-		delete(s.declared, d)
-	}
-	s.scopedT, s.scopedD = nil, nil
 }
 
 // ValueBV returns the model value of a bitvector/bool term; call after Check returned sat and before Pop.
